@@ -81,6 +81,9 @@ type executor struct {
 	// GroupedFieldSetCache is used to cache the results of collectFields.
 	GroupedFieldSetCache map[string]*GroupedFieldSet
 
+	// reportedDirectives holds the directives whose argument coercion error is already in Errors.
+	reportedDirectives map[*ast.Directive]struct{}
+
 	// CatchError is used to handle errors for nullable fields. The closure is generated on
 	// construction to avoid allocations during execution.
 	CatchError func(future.Result[any]) future.Result[any]
@@ -500,7 +503,16 @@ func (e *executor) collectFieldsImpl(objectType *schema.ObjectType, selections [
 					// The directive cannot be evaluated, e.g. because a variable holds null for a
 					// non-null argument. Report that to the client and leave the selection out
 					// instead of silently behaving as if the directive was not there.
-					e.Errors = append(e.Errors, err)
+					// Each directive is reported once per operation: collectFields is memoized and the
+					// same selections are also collected for every item of a list, so the number of
+					// copies would otherwise depend on the cache and on the size of the data.
+					if _, ok := e.reportedDirectives[directive]; !ok {
+						if e.reportedDirectives == nil {
+							e.reportedDirectives = map[*ast.Directive]struct{}{}
+						}
+						e.reportedDirectives[directive] = struct{}{}
+						e.Errors = append(e.Errors, err)
+					}
 					skip = true
 				} else if !def.FieldCollectionFilter(arguments) {
 					skip = true
